@@ -315,6 +315,73 @@ static void reject_case(Ctx& ctx, Kind kind, int L, int M) {
     if (M > 1) ctx.nontrivial();
 }
 
+// "rejecting frame lengths that are not a multiple of M": a rejected call must leave the converter unchanged.  ONE object is fed
+// good frame, rejected frame (every non-multiple length <= 2M+1 in turn, must throw), good frame, rejected frame, ...; the good
+// frames' outputs must be bit-identical to those of a fresh object that is fed the good frames only (which the "chain" check ties
+// to the reference chain at the configuration's fixed phase for every framing).
+static void reject_state_case(Ctx& ctx, Kind kind, int L, int M, int mul, const std::string& hk, int nh) {
+    const char* site = kind == DECIM ? "FIRDecimator::process" : kind == RATE ? "FIRRateConverter::process" : "FIRResampler::process";
+    arr_real ha;
+    const arr_real* hp = nullptr;
+    if (hk != "default") {
+        ha = to_arr(sym_dense(nh));
+        hp = &ha;
+    }
+    try {
+        auto a = make(kind, L, M, mul, hp);   // sees good and rejected frames
+        auto b = make(kind, L, M, mul, hp);   // sees the good frames only
+        std::vector<int> bad;
+        for (int len = 1; len <= 2 * M + 1; ++len)
+            if (len % M != 0) bad.push_back(len);
+        long pos = 0, rejected = 0;
+        for (size_t s = 0; s <= bad.size(); ++s) {
+            const int g = M * (1 + (int)(s % 3));
+            arr_real in(g);
+            for (int i = 0; i < g; ++i) in[i] = lcg_val(831, (uint64_t)(pos + i));
+            pos += g;
+            arr_real ya = a->process(in), yb = b->process(in);
+            const long want = (long)g * L / M;
+            const int prev_bad = s ? bad[s - 1] : 0;
+            if (ya.size() != want || yb.size() != want) {
+                ctx.fail(site, fmt("good frame of %d samples returned %d / %d samples", g, ya.size(), yb.size()), fmt("%ld", want),
+                         P().kv("step", (long)s).kv("badlen", prev_bad).kv("what", "size"));
+                return;
+            }
+            if (!bitsame(ya, yb)) {
+                int i0 = 0;
+                while (i0 < ya.size() && biteq(ya[i0], yb[i0])) ++i0;
+                ctx.fail(site,
+                         fmt("after the rejected frame of %d samples the next good frame (%d samples, step %zu) gives y[%d]=%.17g, a fresh "
+                             "object fed the good frames only gives %.17g",
+                             prev_bad, g, s, i0, ya[i0], yb[i0]),
+                         "a rejected call leaves the converter unchanged (bit-identical output)",
+                         P().kv("step", (long)s).kv("badlen", prev_bad).kv("i", i0).kv("what", "state"));
+                return;
+            }
+            if (s == bad.size()) break;
+            // the rejected frame: different, large content so that consuming it is visible
+            arr_real bf(bad[s]);
+            for (int i = 0; i < bad[s]; ++i) bf[i] = 1000.0 + 100.0 * lcg_val(832, (uint64_t)(pos + i));
+            bool threw = false;
+            try {
+                arr_real y = a->process(bf);
+            } catch (const std::exception&) {
+                threw = true;
+            }
+            if (!threw) {
+                ctx.fail(site, fmt("frame of %d samples accepted", bad[s]), fmt("exception: frame length is not a multiple of M=%d", M),
+                         P().kv("step", (long)s).kv("badlen", bad[s]).kv("what", "reject"));
+                return;
+            }
+            ++rejected;
+        }
+        ctx.note(fmt("reject.state rejected frames %s", KNAME[kind]), rejected);
+    } catch (const std::exception& e) {
+        ctx.fail(site, fmt("exception on a good frame: %s", e.what()), "no exception", P().kv("what", "throw"));
+    }
+    ctx.nontrivial();
+}
+
 static void getters_case(Ctx& ctx, Kind kind, int L, int M, int mul) {
     try {
         auto o = make(kind, L, M, mul, nullptr);
@@ -609,6 +676,17 @@ int main(int argc, char** argv) {
         if (ctx.take("chain.reject", P().kv("kind", KNAME[cf.k]).kv("L", cf.L).kv("M", cf.M))) reject_case(ctx, cf.k, cf.L, cf.M);
         if (ctx.take("getters", P().kv("kind", KNAME[cf.k]).kv("L", cf.L).kv("M", cf.M).kv("mul", cf.mul)))
             getters_case(ctx, cf.k, cf.L, cf.M, cf.mul);
+    }
+
+    // ---- a rejected frame must not change the state (decimating classes and modes; M = 1 has no rejectable length)
+    for (auto& cf : confs) {
+        if (cf.k == INTERP || cf.M == 1) continue;
+        const int mx = std::max(cf.L, cf.M);
+        auto P0 = [&]() { return P().kv("kind", KNAME[cf.k]).kv("L", cf.L).kv("M", cf.M).kv("mul", cf.mul); };
+        if (ctx.take("chain.reject.state", P0().kv("h", "default").kv("nh", 0))) reject_state_case(ctx, cf.k, cf.L, cf.M, cf.mul, "default", 0);
+        std::vector<int> hl = cf.audio ? std::vector<int>{mx + 1} : std::vector<int>{2, mx + 1, 2 * mx + 3, 4 * mx + 1};
+        for (int n : hl)
+            if (ctx.take("chain.reject.state", P0().kv("h", "dense").kv("nh", n))) reject_state_case(ctx, cf.k, cf.L, cf.M, cf.mul, "dense", n);
     }
 
     // ---- resample(): length / no exception / identity for every (p, q, n)
